@@ -80,6 +80,8 @@ def cases(tier, rng):
         yield c
     for c in section_cases():
         yield c
+    for c in setitem_cases():
+        yield c
     for _ in range(150 if tier == "quick" else 1500):
         items = [c for c in (rand_content(rng) for _ in range(1)) if c][0:1]
         if items:
@@ -135,6 +137,14 @@ def section_cases():
     for tr in (["transpose", "3", True], ["transpose", "b7", False], ["augment"], ["diminish"], ["transpose", "5", True]):
         yield Case("track.run", ["none", ops + [tr]], "track/sections", kind=("track",))
         yield Case("track.run", ["none", ops[:7] + [tr] + ops[7:] + [tr]], "track/sections", kind=("track",))
+
+def setitem_cases():
+    """entries replaced through bar[i] = ... (a rest turned into notes, notes into other notes) before the transformation"""
+    A, B, Cn = [["obj", "A", 3]], [["obj", "C", 4], ["obj", "E", 4]], [["obj", "F#", 5]]
+    for tr in (["transpose", "3", True], ["transpose", "b7", False], ["augment"], ["diminish"]):
+        ops = [["place", A, 4], ["rest", 4], ["place", B, 4], ["set_item", 1, Cn], ["set_item", 0, B], tr]
+        yield Case("bar.run", ["C", 4, 4, ops], "bar/assigned-entries", kind=("bar",))
+        yield Case("bar.run", ["C", 4, 4, ops[:3] + [tr, ["set_item", 2, A], tr]], "bar/assigned-entries", kind=("bar",))
 
 def spec_transpose(nm, o, sh, up):
     """(letter, pitch) the statement prescribes"""
